@@ -488,6 +488,8 @@ func (w *World) strLit(s string) string {
 	c := fmt.Sprintf("strlit!%d", len(w.strLits))
 	w.strLits[s] = c
 	w.strOrd = append(w.strOrd, s)
+	litText[c] = s
+	litWorld = w
 	return c
 }
 
@@ -544,3 +546,7 @@ func (w *World) warn(format string, a ...interface{}) {
 func (w *World) timeType() types.Type {
 	return w.pkgs["time"].Types.Scope().Lookup("Time").Type()
 }
+
+// reverse map of string literal constants (for syntactic normalisation of concatenations)
+var litText = map[string]string{}
+var litWorld *World
